@@ -586,3 +586,51 @@ func (x *Exec) splitEmit(st *State, env *CEnv, splits []string, name, kind strin
 	}
 	x.emit(st, name+"[exhaustive]", kind, or(cases...), "the case split is exhaustive")
 }
+
+// localsOf lists the local variables a function declares (not parameters, results or fields; the
+// bodies of nested function literals are skipped), in source order.
+var localsCache = map[*ssa.Function][]string{}
+
+func (ld *Loaded) localsOf(fn *ssa.Function) []string {
+	if v, ok := localsCache[fn]; ok {
+		return v
+	}
+	var out []string
+	syn := fn.Syntax()
+	if o := fn.Origin(); syn == nil && o != nil {
+		syn = o.Syntax()
+	}
+	var info *types.Info
+	tp := typesPkgOf(fn)
+	for _, p := range ld.pkgs {
+		if tp != nil && p.PkgPath == tp.Path() {
+			info = p.TypesInfo
+		}
+	}
+	if syn != nil && info != nil {
+		var body *ast.BlockStmt
+		skip := map[*ast.Ident]bool{}
+		switch d := syn.(type) {
+		case *ast.FuncDecl:
+			body = d.Body
+		case *ast.FuncLit:
+			body = d.Body
+		}
+		if body != nil {
+			ast.Inspect(body, func(n ast.Node) bool {
+				if fl, ok := n.(*ast.FuncLit); ok && n != syn {
+					_ = fl
+					return false
+				}
+				if id, ok := n.(*ast.Ident); ok && !skip[id] {
+					if v, ok := info.Defs[id].(*types.Var); ok && !v.IsField() && id.Name != "_" {
+						out = append(out, id.Name)
+					}
+				}
+				return true
+			})
+		}
+	}
+	localsCache[fn] = out
+	return out
+}
